@@ -912,6 +912,10 @@ class Exec:
                 return mk("f", m[op], a, b)
             c = {"Lt": "lt", "Le": "le", "Gt": "gt", "Ge": "ge", "Eq": "eq", "Ne": "ne"}
             if op in c:
+                if ty == "f64":
+                    r_ = self.float_predicate(c[op], a, b)
+                    if r_ is not None:
+                        return r_
                 return mk("cmp", c[op], ty, a, b)
             raise Unsupported("float binop %s" % op)
         c = {"Lt": "lt", "Le": "le", "Gt": "gt", "Ge": "ge", "Eq": "eq", "Ne": "ne"}
@@ -924,6 +928,10 @@ class Exec:
                 x, y = cint(a), cint(b)
                 r = {"lt": x < y, "le": x <= y, "gt": x > y, "ge": x >= y, "eq": x == y, "ne": x != y}[c[op]]
                 return mk_const("bool", int(r))
+            if ty == "u64" and c[op] in ("eq", "ne"):
+                r_ = self.sign_bit_test(c[op], a, b)
+                if r_ is not None:
+                    return r_
             return mk("cmp", c[op], ty, a, b)
         base = op.replace("WithOverflow", "").replace("Unchecked", "")
         with_ovf = op.endswith("WithOverflow")
@@ -938,6 +946,17 @@ class Exec:
             if base == "Rem" and ty.startswith("u") and cb > 0 and cb & (cb - 1) == 0 and not with_ovf:
                 # x % 2^k == x & (2^k - 1) for unsigned x
                 return self.binop("BitAnd", ty, a, mk_const(ty, cb - 1))
+            if base == "Shr" and ty.startswith("u") and not with_ovf and tag(a) == "i" and a[2] == ty and is_const(a[4]):
+                n_ = INT_BITS[ty]; sh = cint(b)
+                if a[1] == "shl" and 0 <= cint(a[4]) <= sh < n_:
+                    # (x << l) >> r  ==  (x >> (r - l)) & (2^(n - r) - 1)
+                    inner = self.binop("Shr", ty, a[3], mk_const("u32", sh - cint(a[4])))
+                    return self.binop("BitAnd", ty, inner, mk_const(ty, (1 << (n_ - sh)) - 1))
+                if a[1] == "bitand" and 0 <= sh < n_:
+                    # (x & m) >> r  ==  (x >> r) & (m >> r)
+                    return self.binop("BitAnd", ty, self.binop("Shr", ty, a[3], mk_const("u32", sh)), mk_const(ty, cint(a[4]) >> sh))
+            if base == "Shr" and cb == 0 and not with_ovf:
+                return a
             if base == "Div" and ty.startswith("u") and cb > 1 and cb & (cb - 1) == 0 and not with_ovf:
                 # x / 2^k == x >> k for unsigned x
                 return self.binop("Shr", ty, a, mk_const("u32", cb.bit_length() - 1))
@@ -985,6 +1004,48 @@ class Exec:
         if with_ovf:
             return mk("agg", ("tuple",), (res, ovf))
         return res
+
+    def float_predicate(self, op, a, b):
+        """exact re-spellings of the f64 predicates: x != x, |x| == inf, |x| < inf, copysign(1, x) < 0"""
+        NAN_ = "core::f64::<impl f64>::is_nan"; INF_ = "core::f64::<impl f64>::is_infinite"; FIN_ = "core::f64::<impl f64>::is_finite"
+        if a is b and op in ("eq", "ne"):
+            n_ = mk("call", NAN_, a)
+            return n_ if op == "ne" else mk("not", n_)
+        def is_abs(t):
+            return tag(t) == "call" and t[1] == "libm::fabs" and len(t) == 3
+        def is_inf(t):
+            return is_const(t) and t[1] == "f64" and cint(t) == 0x7FF0000000000000
+        for x, k, o in ((a, b, op), (b, a, {"lt": "gt", "gt": "lt", "le": "ge", "ge": "le", "eq": "eq", "ne": "ne"}[op])):
+            if is_abs(x) and is_inf(k):
+                if o == "eq": return mk("call", INF_, x[2])
+                if o == "lt": return mk("call", FIN_, x[2])
+            # copysign(c, x) against zero, c a positive constant: the sign bit of x
+            if tag(x) == "call" and x[1] == "libm::copysign" and len(x) == 4 and is_const(x[2]) and is_const(k) and k[1] == "f64" and cint(k) in (0, 1 << 63) \
+                    and 0 < cint(x[2]) < 0x7FF0000000000000:
+                neg_ = mk("call", "core::f64::<impl f64>::is_sign_negative", x[3])
+                if o == "lt": return neg_
+                if o == "gt": return mk("not", neg_)
+        return None
+
+    def sign_bit_test(self, op, a, b):
+        """(x.to_bits() >> 63) == 1, x.to_bits() & (1 << 63) != 0 and the like: the sign bit of x"""
+        def bits_of(t):
+            return t[2] if tag(t) == "call" and t[1] == "core::f64::<impl f64>::to_bits" and len(t) == 3 else None
+        for x, k in ((a, b), (b, a)):
+            if not is_const(k):
+                continue
+            kv = cint(k); neg_ = None
+            if tag(x) == "i" and x[1] == "shr" and bits_of(x[3]) is not None and is_const(x[4]) and cint(x[4]) == 63 and kv in (0, 1):
+                neg_ = (mk("call", "core::f64::<impl f64>::is_sign_negative", bits_of(x[3])), kv == 1)
+            if tag(x) == "i" and x[1] == "bitand" and kv in (0, 1 << 63):
+                for u, m in ((x[3], x[4]), (x[4], x[3])):
+                    if bits_of(u) is not None and is_const(m) and cint(m) == 1 << 63:
+                        neg_ = (mk("call", "core::f64::<impl f64>::is_sign_negative", bits_of(u)), kv != 0)
+            if neg_ is not None:
+                t_, when_set = neg_
+                pos = (op == "eq") == when_set
+                return t_ if pos else mk("not", t_)
+        return None
 
     def unop(self, op, ty, a):
         ty = F.norm_ty(ty)
@@ -1501,6 +1562,10 @@ class Exec:
                         return mk("call", "libm::fabs", x[2])
         if base in ("core::f64::<impl f64>::abs",) and len(args) == 1:
             return mk("call", "libm::fabs", self.deref_value(st, args[0]))
+        if base in ("libm::copysign", "core::f64::<impl f64>::copysign") and len(args) == 2:
+            x_ = self.deref_value(st, args[0]); s_ = self.deref_value(st, args[1])
+            if is_const(s_) and s_[1] == "f64" and cint(s_) >> 63 == 0 and (cint(s_) >> 52) & 0x7ff != 0x7ff:
+                return mk("call", "libm::fabs", x_)      # the sign of a positive constant: |x|
         # the exactly specified IEEE operations have one result whoever computes them: std's inherent methods and libm's
         # functions are the same function (sqrt is correctly rounded in both; the roundings to an integer are exact)
         STD_EXACT = {"sqrt": "libm::sqrt", "floor": "libm::floor", "ceil": "libm::ceil", "trunc": "libm::trunc", "round": "libm::round",
